@@ -1,6 +1,7 @@
 import SpecVerif.Proofs.Lemmas.Burg
 import SpecVerif.Proofs.Lemmas.SchurCohn
 import Mathlib.Algebra.Star.Rat
+import SpecVerif.Proofs.Lemmas.CRatField
 /-
   C13 — Burg's method (`arburg`, model in `SpecVerif/Model/Burg.lean`).
 
@@ -463,5 +464,35 @@ example : ∀ i, i < 1 → ‖nth (burgRun ([1, 2, 1] : List ℝ) 1).ref i‖ < 
   constructor <;> norm_num
 
 end Stability
+
+/-! ### instantiation at the executed scalar type `CRat`
+
+`Lemmas/CRatField.lean` makes the Gaussian rationals of the executable model a `Field` / `StarRing` whose
+operations ARE the model's hand-written instances.  The theorems below are the generic theorems of this
+file specialised to `K := CRat` (by plain application — no rewriting): their statements elaborate to the
+model functions applied to the model's own instances (`CRat.instAdd`, `CRat.instMul`, `CRat.instDiv`, …,
+`CRat.instConj`), i.e. to the code that the differential test executes; `conj` is the model's conjugation.
+The `example … := rfl` lines check that the `Field`-path elaboration used by the generic theorems,
+instantiated at `CRat`, is that very function. -/
+section CRatInstantiation
+
+/-- **`burg_rho_product` for the executed model** -/
+theorem burg_rho_product_CRat (x : List CRat) (k : ℕ) :
+    (burgRun x k).rho
+        = (burgInit x).rho * ((burgRun x k).ref.map (fun κ => 1 - κ * conj κ)).prod ∧
+    (burgRun x k).rho
+        = (burgInit x).rho * ∏ i ∈ range k,
+            (1 - nth (burgRun x k).ref i * conj (nth (burgRun x k).ref i)) ∧
+    (burgInit x).rho = (∑ j ∈ range x.length, nth x j * conj (nth x j)) / (x.length : CRat) ∧
+    (burgRun x k).rho = (rc2poly (burgRun x k).ref (burgInit x).rho).2 :=
+  burg_rho_product x k
+
+example : (fun (K : Type) [Field K] [StarRing K] => (burgRun : List K → _)) CRat
+    = @burgRun CRat CRat.instAdd CRat.instSub CRat.instMul CRat.instDiv CRat.instNeg
+        CRat.instOfNatOfNatNat CRat.instOfNatOfNatNat_1 CRat.instNatCast CRat.instConj := rfl
+example : @burgRun CRat CRat.instAdd CRat.instSub CRat.instMul CRat.instDiv CRat.instNeg
+    CRat.instOfNatOfNatNat CRat.instOfNatOfNatNat_1 CRat.instNatCast CRat.instConj = burgRun := rfl
+
+end CRatInstantiation
 
 end SpecVerif.C13
